@@ -183,6 +183,24 @@ func init() {
 			return c
 		}
 		c := genVarCase(r, id, varOpts{fmtWeights: [2]int{1, 1}, withIns: r.Bool(), agg: true, window: r.Chance(1, 3), maxGenes: 4, sameName: true})
+		if r.Chance(1, 5) {
+			// the same sample twice in the alignment (one ID, the same mutations): two records, counted twice
+			names := strings.Split(c.Get("names"), ",")
+			seqs := strings.Split(c.Get("seqs"), ",")
+			var q []int
+			for i, n := range names {
+				if n != c.Get("refname") {
+					q = append(q, i)
+				}
+			}
+			if len(q) > 0 && c.Get("refmode") != "stdin" {
+				i := q[r.Intn(len(q))]
+				names = append(names[:i+1:i+1], append([]string{names[i]}, names[i+1:]...)...)
+				seqs = append(seqs[:i+1:i+1], append([]string{seqs[i]}, seqs[i+1:]...)...)
+				c.Set("names", strings.Join(names, ",")).Set("seqs", strings.Join(seqs, ","))
+				c.Tag("record-id-twice-in-a-row")
+			}
+		}
 		if r.Chance(1, 2) {
 			return relOf(c, "agg", "aggregate")
 		}
@@ -237,6 +255,20 @@ func c14Gen(r *RNG, id string) *Case {
 			}
 			genes = append(genes, g)
 		}
+	}
+	if L >= 40 && r.Chance(1, 6) {
+		// three features of one name: a..b, a+3..b and join(a..m, n..b), the differently numbered one in the middle
+		a := r.Range(1, L-36)
+		b := a + 3*r.Range(8, 10) - 1
+		nth := 0
+		mk := func(segs [][2]int, form string) gene {
+			nth++
+			return gene{name: "X", strand: 1, codonStart: 1, gffNamed: true, gffID: true, gffType: "CDS", gbForm: form, segs: segs, idSuffix: fmt.Sprintf("-%d", nth)}
+		}
+		m := a + 3*r.Range(3, 4) - 1
+		n := m + 1 + 3*r.Range(1, 2)
+		genes = append(genes, mk([][2]int{{a, b}}, "range"), mk([][2]int{{a + 3, b}}, "range"), mk([][2]int{{a, m}, {n, b}}, "join"))
+		c.Tag("three-features-of-one-name")
 	}
 	refName := "REF" + fmt.Sprint(r.Intn(90)+10)
 	gbTxt, gbProto := renderGenbank(genes, genome)
